@@ -95,6 +95,10 @@ void harness(void)
 #else
     VP_ASSUME(in.null_variant == 0);
 
+    /* the table may have been used before: whatever its flags say (a stale
+     * INITIALISED mark from an earlier successful initialisation included),
+     * only the byte-order flag is an input to register_init */
+    vp_t.flags = (uint16_t)((in.flags & (uint16_t)~REG_TF_BIG_ENDIAN) | (d->bigendian ? REG_TF_BIG_ENDIAN : 0));
     RegisterInit ri = register_init(&vp_t);
 
     /* ---------------- reference: rule groups in the order the property lists them */
@@ -169,6 +173,9 @@ void harness(void)
         VP_ASSERT(ok, "C04.failure.first-violated-rule-and-index");
         /* => every operation answers UNINITIALISED: decided in the c04_uninit instance */
         VP_ASSERT(!BIT_ISSET(vp_t.flags, REG_TF_INITIALISED), "C04.failure.not-initialised");
+#if FIX_NA != 1 || FIX_NE >= 1
+        VP_WITNESS((in.flags & REG_TF_INITIALISED) != 0, "C04.failure.re-initialisation-of-a-used-table.reach");
+#endif
 #if FIX_NA >= 2
         VP_WITNESS(ri.code == REG_INIT_AREA_ADDRESS_OVERLAP && ri.pos.area == FIX_NA - 1, "C04.area-overlap.reach");
         VP_WITNESS(ri.code == REG_INIT_AREA_INVALID_ORDER, "C04.area-order.reach");
